@@ -498,8 +498,11 @@ func H_C02_flush_many() {
 		}
 	}
 	check("before-flush")
-	vFlushBoth(u.idx, u.m)
-	check("after-flush")
+	flushFirst := vChoose("flush_before_the_later_add", 2) == 1
+	if flushFirst {
+		vFlushBoth(u.idx, u.m)
+		check("after-flush")
+	}
 	for i := range pts {
 		if mask&(1<<uint(i)) != 0 {
 			_, nerr := u.idx.NewSearch().WithNode(vIDs[i]).WithK(0).WithNProbes(0).Execute()
@@ -507,7 +510,23 @@ func H_C02_flush_many() {
 		}
 	}
 	np := [][]float32{{0.25, 0.5}, {3.5, 3}, {-3.5, -2}}[vChoose("new_at", 3)]
-	vAddBoth(u.idx, u.m, 42, vCopy(np))
+	newID := uint32(42)
+	if vChoose("later_add_is_an_update", 2) == 1 {
+		// the later Add re-uses the first removed id (update = remove + add), other removals possibly still pending
+		first := -1
+		for i := range pts {
+			if mask&(1<<uint(i)) != 0 {
+				first = i
+				break
+			}
+		}
+		if first < 0 {
+			vAssume(false)
+		}
+		newID = vIDs[first]
+		vTag("update")
+	}
+	vAddBoth(u.idx, u.m, newID, vCopy(np))
 	check("after-later-add")
 	check("after-later-add-again")
 	vCover("ran")
